@@ -121,3 +121,11 @@ package decoder
 //@   loop 1 iter [C07] len(candidates.List) == old(len(candidates.List)) || len(candidates.List) == old(len(candidates.List)) + 1
 //@   loop 2 iter [C07] (len(candidates.List) == old(len(candidates.List)) + 1) == (!haskey(schema.Attributes, bType) && isBlockDeclarable(body, bType, schema.Blocks[bType]) && (len(prefix) == 0 || strings.HasPrefix(bType, string(prefix))))
 //@   loop 2 iter [C07] len(candidates.List) == old(len(candidates.List)) || len(candidates.List) == old(len(candidates.List)) + 1
+
+// ---- C07: label completion offers each dependent-body label value once: a value is appended exactly when
+// ---- it is for the completed label index, matches the prefix and was not offered before, and it is then recorded.
+//@ contract (*decoder.PathDecoder).labelCandidatesFromDependentSchema (d, idx, db, prefixRng, editRng, block, labelSchemas) (result, err)
+//@   requires block != nil
+//@   loop 2 iter [C07] (len(candidates.List) == old(len(candidates.List)) + 1) == (label.Index == idx && (len(prefix) == 0 || strings.HasPrefix(label.Value, string(prefix))) && !old(haskey(foundCandidateNames, label.Value)))
+//@   loop 2 iter [C07] len(candidates.List) == old(len(candidates.List)) || len(candidates.List) == old(len(candidates.List)) + 1
+//@   loop 2 iter [C07] implies(len(candidates.List) > old(len(candidates.List)), haskey(foundCandidateNames, label.Value))
